@@ -10,11 +10,17 @@
        run of C11 / C07, malformed inputs included) returns Err, or Ok v with v agreeing with s on every field the
        reader returns - and never Panic                                  ([err_or (agree s) (dec_X bs)]).
 
+   Three repairs found by these theorems are in notes/fixes (c06-superblock-sizes, c06-attribute-v2-padding,
+   c06-pipeline-v2-filter-name).  The three models carry a boolean switch (dec_superblock_gen, dec_attribute_gen,
+   dec_pipeline_gen: false = the code before the repair, true = the repaired code = dec_superblock / dec_attribute /
+   dec_pipeline); the ties read from the source tree under test which variant it implements.  The positive theorems are
+   stated for the repaired variant (or for both), the old behaviour stays stated as [_refuted] for the variant [false].
+
    Where that statement is FALSE for the faithful reader model there is a [_refuted] theorem with the witness bytes
    (a conformant message the reader decodes, without error, to a different value), and the positive theorem carries
    the hypothesis that names the excluded class. *)
 From HV Require Import Base.Prelude Base.Outcome Base.Bytes Spec.Parse Spec.Format Spec.FormatMsg
-  Model.CodecMsg Model.CodecType Model.CodecLink Model.CodecAttr Model.CodecSuper Model.CodecFilter Model.CodecAttrRepaired Model.CodecSuperRepaired Model.CodecFilterRepaired
+  Model.CodecMsg Model.CodecType Model.CodecLink Model.CodecAttr Model.CodecSuper Model.CodecFilter
   Proofs.ReaderSpecBase Proofs.ReaderSpecDataspace Proofs.ReaderSpecLayout Proofs.ReaderSpecLink Proofs.ReaderSpecSuper Proofs.ReaderSpecAttr Proofs.ReaderSpecType Proofs.ReaderSpecAttrFrame Proofs.ReaderSpecSuperOk Proofs.ReaderSpecInfo Proofs.ReaderSpecTypeAll Proofs.ReaderSpecSuperRepaired Proofs.ReaderSpecPipeline.
 
 (* ------------------------------------------------------------------ dataspace (versions 1 and 2; scalar, simple, null;
@@ -122,7 +128,7 @@ Theorem C06_reader_attribute_v2_padding_refuted :
     Ok ({| as_version := 2; as_cset := 0; as_name := [97]; as_dtype := DFixed 1 1 0 0 0 false 0 8;
            as_space := {| dss_version := 2; dss_type := 1; dss_dims := [16]; dss_maxdims := None |};
            as_data := [7; 7; 2; 0; 0; 0; 0; 0; 0; 0; 1; 2; 3; 4; 5; 6] |}, []) /\
-  dec_attribute false attr_v2_witness =
+  dec_attribute_gen false false attr_v2_witness =
     Ok {| atp_name := [97];
           atp_dt := {| dt_class := 0; dt_version := 0; dt_size := 16908296; dt_cbf := 0; dt_props := [0; 1; 16; 0] |};
           atp_ds := {| dsp_version := 2; dsp_type := 0; dsp_dims := [1]; dsp_maxdims := None |};
@@ -137,28 +143,28 @@ Print Assumptions C06_reader_attribute_v2_padding_refuted.
    at_agree: same name; dataspace agrees (ds_agree); datatype agrees (dt_agree) when of class 0 / 1 / 3; the data the reader
    hands back (the rest of the message, so including up to 7 bytes of object header padding) starts with the
    specification's data bytes. *)
-Theorem C06_reader_attribute_v1 : forall (lsz : nat) (pad_ok : bool) (bs : bytes) (a : attribute_spec) (tg : list tag),
+Theorem C06_reader_attribute_v1 : forall (rep : bool) (lsz : nat) (pad_ok : bool) (bs : bytes) (a : attribute_spec) (tg : list tag),
   bytes_ok bs = true -> blen bs < 65536 ->
   lsz = 4%nat \/ lsz = 8%nat ->
   spec_dec_attribute strict lsz pad_ok bs = Ok (a, tg) ->
   index bs 0 = Ok 1 ->
   simple_rank0 (as_space a) = false ->
-  err_or (at_agree a) (dec_attribute false bs).
+  err_or (at_agree a) (dec_attribute_gen rep false bs).
 Proof. exact attribute_v1_reader_spec. Qed.
 Print Assumptions C06_reader_attribute_v1.
 
-Theorem C06_reader_attribute_v3 : forall (lsz : nat) (pad_ok : bool) (bs : bytes) (a : attribute_spec) (tg : list tag),
+Theorem C06_reader_attribute_v3 : forall (rep : bool) (lsz : nat) (pad_ok : bool) (bs : bytes) (a : attribute_spec) (tg : list tag),
   bytes_ok bs = true -> blen bs < 65536 ->
   lsz = 4%nat \/ lsz = 8%nat ->
   spec_dec_attribute strict lsz pad_ok bs = Ok (a, tg) ->
   index bs 0 = Ok 3 ->
   simple_rank0 (as_space a) = false ->
-  err_or (at_agree a) (dec_attribute false bs).
+  err_or (at_agree a) (dec_attribute_gen rep false bs).
 Proof. exact attribute_v3_reader_spec. Qed.
 Print Assumptions C06_reader_attribute_v3.
 
-(* ------------------------------------------------------------------ superblock with size of offsets = size of lengths = 8:
-   the class the refutations above leave.  For every file image the strict specification decoder accepts (signature, version,
+(* ------------------------------------------------------------------ superblock with size of offsets = size of lengths = 8,
+   for the UNREPAIRED reader (dec_superblock_gen false): the class the refutations above leave.  For every file image the strict specification decoder accepts (signature, version,
    reserved bytes, K values, flags, addresses, root symbol table entry / lookup3 checksum) the reader returns an error or the
    same version, sizes, little-endian byte order and root group address; versions 2/3: base address and superblock extension
    address; version 0: the cached B-tree / local heap addresses when the root entry's cache type is 1 (sb_agree).
@@ -166,14 +172,14 @@ Print Assumptions C06_reader_attribute_v3.
 Theorem C06_reader_superblock_v2_v3 : forall (bs : bytes) (s : superblock_spec) (tg : list tag) (r : bytes),
   spec_dec_superblock strict bs = Ok (s, tg, r) ->
   sbs_version s = 2 \/ sbs_version s = 3 -> sbs_O s = 8 -> sbs_L s = 8 ->
-  err_or (sb_agree s) (dec_superblock bs).
+  err_or (sb_agree s) (dec_superblock_gen false bs).
 Proof. exact superblock_v23_reader_spec. Qed.
 Print Assumptions C06_reader_superblock_v2_v3.
 
 Theorem C06_reader_superblock_v0 : forall (bs : bytes) (s : superblock_spec) (tg : list tag) (r : bytes),
   spec_dec_superblock strict bs = Ok (s, tg, r) ->
   sbs_version s = 0 -> sbs_O s = 8 -> sbs_L s = 8 ->
-  err_or (sb_agree s) (dec_superblock bs).
+  err_or (sb_agree s) (dec_superblock_gen false bs).
 Proof. exact superblock_v0_reader_spec. Qed.
 Print Assumptions C06_reader_superblock_v0.
 
@@ -224,13 +230,12 @@ Proof. exact attrinfo_padded_refuted. Qed.
 Print Assumptions C06_reader_attrinfo_padded_refuted.
 
 (* ------------------------------------------------------------------ attribute message version 2 for the REPAIRED reader
-   (Model/CodecAttrRepaired.v: dec_attribute_gen true is the tied model dec_attribute, by reflexivity; dec_attribute_gen false
-   is the code with notes/fixes/c06-attribute-v2-padding.patch): the statement refuted above holds once version 2 is no
-   longer padded. *)
-Theorem C06_reader_attribute_gen_is_current : forall (bigendian : bool) (data : bytes),
-  dec_attribute_gen true bigendian data = dec_attribute bigendian data.
-Proof. exact dec_attribute_gen_current. Qed.
-Print Assumptions C06_reader_attribute_gen_is_current.
+   (dec_attribute_gen true = dec_attribute: the code with notes/fixes/c06-attribute-v2-padding.patch): the statement refuted
+   above for the variant [false] holds once version 2 is no longer padded. *)
+Theorem C06_reader_attribute_is_repaired_variant : forall (bigendian : bool) (data : bytes),
+  dec_attribute bigendian data = dec_attribute_gen true bigendian data.
+Proof. reflexivity. Qed.
+Print Assumptions C06_reader_attribute_is_repaired_variant.
 
 Theorem C06_reader_attribute_v2_repaired : forall (lsz : nat) (pad_ok : bool) (bs : bytes) (a : attribute_spec) (tg : list tag),
   bytes_ok bs = true -> blen bs < 65536 ->
@@ -238,30 +243,29 @@ Theorem C06_reader_attribute_v2_repaired : forall (lsz : nat) (pad_ok : bool) (b
   spec_dec_attribute strict lsz pad_ok bs = Ok (a, tg) ->
   index bs 0 = Ok 2 ->
   simple_rank0 (as_space a) = false ->
-  err_or (at_agree a) (dec_attribute_gen false false bs).
+  err_or (at_agree a) (dec_attribute false bs).
 Proof. exact attribute_v2_repaired_reader_spec. Qed.
 Print Assumptions C06_reader_attribute_v2_repaired.
 
 (* ------------------------------------------------------------------ superblock for the REPAIRED reader
-   (Model/CodecSuperRepaired.v: dec_superblock_gen false is the tied model dec_superblock, by reflexivity;
-   dec_superblock_gen true is the code with notes/fixes/c06-superblock-sizes.patch): for EVERY size of offsets / lengths
-   the format allows - no hypothesis on the sizes any more. *)
-Theorem C06_reader_superblock_gen_is_current : forall (file : bytes),
-  dec_superblock_gen false file = dec_superblock file.
-Proof. exact dec_superblock_gen_current. Qed.
-Print Assumptions C06_reader_superblock_gen_is_current.
+   (dec_superblock_gen true = dec_superblock: the code with notes/fixes/c06-superblock-sizes.patch): for EVERY size of
+   offsets / lengths the format allows - no hypothesis on the sizes any more. *)
+Theorem C06_reader_superblock_is_repaired_variant : forall (file : bytes),
+  dec_superblock file = dec_superblock_gen true file.
+Proof. reflexivity. Qed.
+Print Assumptions C06_reader_superblock_is_repaired_variant.
 
 Theorem C06_reader_superblock_v2_v3_repaired : forall (bs : bytes) (s : superblock_spec) (tg : list tag) (r : bytes),
   spec_dec_superblock strict bs = Ok (s, tg, r) ->
   sbs_version s = 2 \/ sbs_version s = 3 ->
-  err_or (sb_agree s) (dec_superblock_gen true bs).
+  err_or (sb_agree s) (dec_superblock bs).
 Proof. exact superblock_v23_repaired_reader_spec. Qed.
 Print Assumptions C06_reader_superblock_v2_v3_repaired.
 
 Theorem C06_reader_superblock_v0_repaired : forall (bs : bytes) (s : superblock_spec) (tg : list tag) (r : bytes),
   spec_dec_superblock strict bs = Ok (s, tg, r) ->
   sbs_version s = 0 ->
-  err_or (sb_agree s) (dec_superblock_gen true bs).
+  err_or (sb_agree s) (dec_superblock bs).
 Proof. exact superblock_v0_repaired_reader_spec. Qed.
 Print Assumptions C06_reader_superblock_v0_repaired.
 
@@ -278,23 +282,22 @@ Print Assumptions C06_reader_superblock_repaired_witnesses.
    user-defined filters (identifier >= 256).  A genuine version 2 message gives such a filter a name-length field and a
    name; the reader reads neither (outside the version 1 layout), so it returns the name length as the flags, drops the
    client data and continues behind the wrong field.  Witness: filter 32000 "lzf" with client data [5].
-   With notes/fixes/c06-pipeline-v2-filter-name.patch (Model/CodecFilterRepaired.v; dec_pipeline_gen false is the tied model
-   dec_pipeline) the witness is decoded as the specification says. *)
+   With notes/fixes/c06-pipeline-v2-filter-name.patch (dec_pipeline_gen true = dec_pipeline) the witness is decoded as the specification says. *)
 Theorem C06_reader_pipeline_v2_userfilter_refuted :
   spec_dec_pipeline strict false pipeline_v2_userfilter_witness =
     Ok ([{| fl_id := 32000; fl_flags := 0; fl_name := [108; 122; 102; 0]; fl_cd := [5] |}], []) /\
-  dec_pipeline pipeline_v2_userfilter_witness =
+  dec_pipeline_gen false pipeline_v2_userfilter_witness =
     Ok {| pl_version := 2; pl_nfilters := 1;
           pl_filters := [{| rf_id := 32000; rf_namelen := 0; rf_flags := 4; rf_ncd := 0; rf_name := []; rf_cd := None |}] |}.
 Proof. exact pipeline_v2_userfilter_refuted. Qed.
 Print Assumptions C06_reader_pipeline_v2_userfilter_refuted.
 
-Theorem C06_reader_pipeline_gen_is_current : forall (data : bytes), dec_pipeline_gen false data = dec_pipeline data.
-Proof. exact dec_pipeline_gen_current. Qed.
-Print Assumptions C06_reader_pipeline_gen_is_current.
+Theorem C06_reader_pipeline_is_repaired_variant : forall (data : bytes), dec_pipeline data = dec_pipeline_gen true data.
+Proof. reflexivity. Qed.
+Print Assumptions C06_reader_pipeline_is_repaired_variant.
 
 Theorem C06_reader_pipeline_v2_userfilter_repaired :
-  dec_pipeline_gen true pipeline_v2_userfilter_witness =
+  dec_pipeline pipeline_v2_userfilter_witness =
     Ok {| pl_version := 2; pl_nfilters := 1;
           pl_filters := [{| rf_id := 32000; rf_namelen := 4; rf_flags := 0; rf_ncd := 1; rf_name := [108; 122; 102];
                             rf_cd := Some [5] |}] |}.
